@@ -2,7 +2,6 @@
 from ..common import hx
 from .. import registry
 
-LEVEL = "exploration"
 RULE = ("route lines: {combined, Enc, Dec} x {new, From<Enc>, From<&Enc>, clone, clone of converted, converted clone} for "
         "Aes128/192/256 and Kuznyechik, under NI / detection-off soft arm / force_soft / compact / Kuznyechik soft backends; "
         "every other Clone type: clone (original dropped) vs fresh; compared through 4 probe blocks in each supported "
